@@ -239,8 +239,8 @@ def shard(idx, n, tier, seed, binary, cli):
     acc = runner.Acc()
     ob = Observer(binary, cli, acc)
     try:
-        rounds = 2 if tier == "quick" else 40
-        nrand = 12 if tier == "quick" else 500
+        rounds = 2 if tier == "quick" else 14
+        nrand = 12 if tier == "quick" else 160
         for r in range(rounds):
             rng = runner.rng_for(seed, "c16", idx, r)
             for i, (cls, code, tla) in enumerate(templates(rng)):
